@@ -23,6 +23,9 @@ func init() {
 
 func runC05(p *eng.Prog, r *eng.Report, tier string) {
 	c := &cx{p, r, tier}
+	// C05.24 (= C09.17 / C10.10): no cycle in the lock-order graph: a deadlock between a
+	// writer and Close, or between the serve loop and a requester, ends every guarantee of this property
+	lockOrder(c, "C05.24")
 	exempt := map[string]string{"xmpp.negotiateSession": "construction before the session is shared"}
 	lockDiscipline(c, "C05.1", "xmpp.Session.out.e", "xmpp.Session.out", exempt, 9)
 	requiresLocks(c, "C05.1", "xmpp.(*Session).closeSession")
@@ -42,6 +45,12 @@ func runC05(p *eng.Prog, r *eng.Report, tier string) {
 	c05ReplyFlushedAfterHandler(c, "C05.20")
 	c05ContentNamespaceFromRole(c, "C05.17")
 	streamInfoResetOnlyOnRestart(c, "C05.21")
+	// C05.22 (= C12.16): a header that leaves an attribute out leaves the field
+	// alone - the from address stamped on server-to-server stanzas is the
+	// address negotiateSession preserved across the steps
+	c12HeaderKeepsAbsent(c, "C05.22")
+	// (no sync.Pool on today's tree: kept alive by the stored variant C05-r14-3)
+	c.r.Note("C05.23: %d Pool.Put calls", pooledStorageDoesNotEscape(c, "C05.23"))
 	nEnum := enumExhaustive(c, "C05.13", []string{"stanza"})
 	c.r.Floor("C05.13", "enumeration methods in package stanza", nEnum, 2)
 	c05Send(c)
